@@ -14,7 +14,7 @@ BLOCK = 20000
 
 
 def grammars():
-    return S.synthetic_grammars() + S.real_grammars() + [S.mixed_head_grammar()]
+    return S.synthetic_grammars() + S.real_grammars() + [S.mixed_head_grammar(), S.dense_mixed_grammar()]
 
 
 def oracle_best(M, u, Mt, X, pen, adm_mask=None):
@@ -261,7 +261,7 @@ def plan(tier):
                 for base in (0.0, -1.0) if d else ():
                     shards.append(('dev', gi, n, V4, base, d, dict(unary_penalty=0.5)))
         # graded baselines (all entries differ, so the agenda order is decided by scores and not by ties)
-        for base in ('g1', 'g2'):
+        for base in ('g1', 'g2', 'g3'):
             for n in (2, 3, 4) + ((5, 6) if tier == 'thorough' and not real and T == 1 else ()):
                 if real and n == 4 and tier == 'quick':
                     continue
@@ -281,7 +281,7 @@ def plan(tier):
                 if nd == 0 or nd > cap:
                     break
                 N = S.n_entries(n, T)
-                for base in (-1.0, 'g1', 'g2'):
+                for base in (-1.0, 'g1', 'g2', 'g3'):
                     d = 1 if tier == 'quick' else (deepest(N, 3, 200000, gi=gi, n=n) or 1)
                     shards.append(('dev', gi, n, V4, base, d, dict(unary_penalty=0.5)))
         # the default unary penalty 0.1 is not representable: one tolerance-judged family per grammar with unary rules
